@@ -9,6 +9,7 @@ import (
 	"sort"
 	"time"
 
+	nodemodule "github.com/SaoNetwork/sao/x/node"
 	nodetypes "github.com/SaoNetwork/sao/x/node/types"
 	sdk "github.com/cosmos/cosmos-sdk/types"
 )
@@ -22,6 +23,7 @@ type SelOut struct {
 	Sps    []string `json:"sps"`
 	Round  int64    `json:"round"`
 	Idx    []int64  `json:"idx"`
+	Age    int64    `json:"age"`
 }
 
 type SelCase struct {
@@ -88,6 +90,19 @@ func (c *Chain) runRI(sc *SelCase) {
 	}
 }
 
+// runAge: the reward age (halvings) when num/den of TOTAL_REWARD has been minted.
+func (c *Chain) runAge(sc *SelCase) {
+	total, _ := sdk.ParseCoinNormalized(nodemodule.TOTAL_REWARD)
+	minted := total.Amount.MulRaw(sc.Count).QuoRaw(sc.Total)
+	pool := nodetypes.Pool{TotalReward: sdk.NewCoin(total.Denom, minted)}
+	var age uint
+	r, _ := c.guarded(func() { age = nodemodule.GetRewardAge(pool) })
+	sc.Out = SelOut{Result: r, Sps: []string{}, Idx: []int64{}, Round: -1, Age: int64(age)}
+	if age > 1000 {
+		sc.Out.Age = 1000
+	}
+}
+
 // SelectionCases writes n random selection cases (plus a systematic sweep of RandomIndex) to path.
 // Returns the number of cases and how many did not return (HANG).
 func (c *Chain) SelectionCases(path string, n int, seed int64) (int, int, error) {
@@ -122,6 +137,12 @@ func (c *Chain) SelectionCases(path string, n int, seed int64) (int, int, error)
 				emit(sc)
 			}
 		}
+	}
+	// reward age at fractions num/den of the total emission (kind "age": count = num, total = den)
+	for _, f := range [][2]int64{{0, 1}, {1, 4}, {1, 2}, {5, 8}, {3, 4}, {7, 8}, {15, 16}, {99, 100}, {1, 1}, {5, 4}, {2, 1}} {
+		sc := &SelCase{Kind: "age", Count: f[0], Total: f[1], Nodes: []PNode{}, Pledges: []PPledge{}, Ignore: []string{}}
+		c.runAge(sc)
+		emit(sc)
 	}
 	accs := []string{}
 	for _, a := range c.Accs {
